@@ -22,7 +22,7 @@ EXPLANATION = ('GroundTrack is built by its real constructor from n = 2, 3, 4 sy
 GT = 'AEIC.trajectories.ground_track:GroundTrack'
 FUNCS = [GT + '.' + m for m in ('__init__', 'great_circle', '__contains__', '__getitem__', 'lookup_waypoint', 'location',
                                 '_overstep', 'step', 'total_distance', 'Point.__post_init__')]
-MFUNCS = ['AEIC.missions.mission:Mission.gc_distance', 'AEIC.missions.mission:Mission.origin_position',
+MFUNCS = ['AEIC.missions.mission:Mission.gc_distance', 'AEIC.missions.mission:Mission.from_query_result', 'AEIC.missions.mission:Mission.origin_position',
           'AEIC.missions.mission:Mission.destination_position', 'AEIC.missions.mission:Mission._airport_position']
 
 
@@ -162,7 +162,17 @@ def gc_distance_unit(h):
 
     def mk(o, d):
         return h.construct('AEIC.missions.mission:Mission', o, d, ts, ts, 1, 'B738')
-    m = mk('ORG', 'DST')
+    # a mission is the same mission however it was made: directly, or from a mission-database query result (whose own
+    # `distance` column is the schedule's figure in kilometres, not a geodesic between AEIC's airport positions)
+    via_query = h.choice(2) == 1
+    h.ctx.named['made_from_a_query_result'] = z3.BoolVal(via_query)
+    if via_query:
+        qr = h.new('AEIC.missions.query:QueryResult', departure=ts, arrival=ts, carrier='XX', flight_number='1', origin='ORG',
+                   origin_country='US', destination='DST', destination_country='US', service_type='J', aircraft_type='B738',
+                   engine_type='x', distance=h.real('schedule_distance_km'), seat_capacity=100, id=h.int('schedule_id'), _partial=True)
+        m = h.I.call(h.I.getattr(h.cls('AEIC.missions.mission:Mission'), 'from_query_result'), [qr], {})
+    else:
+        m = mk('ORG', 'DST')
     g = to_real(h.I.getattr(m, 'gc_distance'))
     h.ensure('equals-geodesic-distance-between-airports', g == DIST(lo1, la1, lo2, la2))
     # equals the length of the ground track between its airports
@@ -261,6 +271,28 @@ def replay_mission(payload):
             m2 = Mission(d, o, ts, ts, 1.0, 'B738')
             t = GroundTrack.great_circle(m.origin_position.location, m.destination_position.location)
             out.append(dict(pair=(o, d), gc_distance=m.gc_distance, reverse=m2.gc_distance, track=t.total_distance))
+        # the same missions made from mission-database query results (the shipped test database)
+        try:
+            from AEIC.missions import Database, Query
+            dbfile = root + '/tests/data/missions/oag-2019-test-subset.sqlite'
+            if not os.path.exists(dbfile):
+                import glob
+                dbfile = (glob.glob(root + '/tests/data/**/*.sqlite', recursive=True) + [dbfile])[0]
+            db = Database(dbfile)
+            made = 0
+            for qr in db(Query()):
+                if made >= 12:
+                    break
+                m = Mission.from_query_result(qr)
+                try:
+                    t = GroundTrack.great_circle(m.origin_position.location, m.destination_position.location)
+                except ValueError:
+                    continue        # an airport of the schedule that the airport table does not know
+                made += 1
+                out.append(dict(pair=(qr.origin, qr.destination), made='from_query_result', gc_distance=m.gc_distance,
+                                reverse=Mission(qr.destination, qr.origin, ts, ts, 1.0, 'B738').gc_distance, track=t.total_distance))
+        except ImportError:
+            pass
         bad = [x for x in out if abs(x['gc_distance'] - x['track']) > 1e-6 or abs(x['gc_distance'] - x['reverse']) > 1e-6]
         return dict(reproduced=bool(bad), observed=bad[:3], required='gc_distance == ground-track length, symmetric')
     finally:
